@@ -28,7 +28,7 @@ func Validate(ctx context.Context, r io.Reader) error {
 
 	if doc, ok := obj.(*schema.Object); ok {
 		if err := doc.Validate(); err != nil {
-			return wrapError(http.StatusUnprocessableEntity, err)
+			return wrapError(http.StatusUnprocessableEntity, keyedError(err))
 		}
 		return nil
 	}
